@@ -24,6 +24,8 @@ type Obligation struct {
 	Goal   *Term
 	Clause string
 	Cover  bool // expected satisfiable (vacuity guard): failure = unsat
+	DeadGroup   string // cover obligations of one function: DeadAllowed of them may be unreachable
+	DeadAllowed int
 	Err    string // bind/subset errors: failed without a solver
 	// result
 	Status   string // proved failed unknown error
@@ -35,6 +37,8 @@ type Obligation struct {
 	Inlined  string // name of inlined callee the obligation originates from
 	ModelTerms []*Term
 	ModelNames []string
+	ReplayTemplate string
+	ModelValues map[string]string
 }
 
 type Engine struct {
@@ -51,6 +55,7 @@ type Engine struct {
 	tagTypes   map[int]types.Type
 	cellN      int
 	dry        int // >0: obligations suppressed
+	specMath   int // >0: evaluating a specification expression
 	// bookkeeping for evidence
 	Unverified map[string]bool // callees treated by default extern rule
 	ExternsUsed map[string]bool
